@@ -153,9 +153,11 @@ CONTRACTS = {
     f"{SEL}.run": {
         "receivers": [SEL], "inv": True, "inv_on_raise": False, "raises": True,
         "site_asserts_in": {"MagicRobot.autonomous": {
+            "C05.A9 the autonomous loop runs at the robot's control_loop_wait_time": "control_loop_wait_time == iter_fn[len(iter_fn) - 1].robot.control_loop_wait_time",
             "C05.A8 (also C10: teleopPeriodic assigns before the components execute and the reset) in autonomous the per-iteration functions are [teleopPeriodic (only with use_teleop_in_autonomous), then _enabled_periodic]":
                 "len(iter_fn) >= 1 and len(iter_fn) == (2 if iter_fn[len(iter_fn) - 1].robot.use_teleop_in_autonomous else 1) and iter_fn[len(iter_fn) - 1].kind == 0 and implies(len(iter_fn) == 2, iter_fn[0].kind == 1)"}},
         "params": {"control_loop_wait_time": "Real", "iter_fn": "Seq[Ref:IterFn]", "on_exception": "Ref:ExcHandler", "watchdog": "Ref:SimpleWatchdog"},
+        "defaults": {"control_loop_wait_time": 0.02, "on_exception": None, "watchdog": None},
         "requires": {"loop period >= 1 ms": "control_loop_wait_time >= 0.001",
                      "iter_fn entries are distinct existing callables whose preconditions hold": "len(iter_fn) >= 0 and forall(a, Int, forall(b, Int, implies(0 <= a and a < len(iter_fn), iter_fn[a] is not None and iterfn_ready(iter_fn[a]) and implies(a < b and b < len(iter_fn), not (iter_fn[a] is iter_fn[b])))))",
                      "handler given (MagicRobot always passes onException)": "on_exception is not None",
